@@ -1292,7 +1292,15 @@ impl Interp {
         info.aid.set(Some(aid));
         info.map_id.set(Some(map_id));
         self.actions.borrow_mut().push(info);
-        self.k.borrow_mut()[k] = Some(cleanable);
+        // The table entry was free when `register` started; a `register` nested in it (from a finalizer of the collection
+        // that the map allocation started) may have filled it meanwhile. The model's table store forgets what was there
+        // (`setK`), so the overwritten `Cleanable` is leaked here too instead of being dropped, and leaks are no longer
+        // judged for this run.
+        let old = self.k.borrow_mut()[k].replace(cleanable);
+        if let Some(old) = old {
+            std::mem::forget(old);
+            self.leaky.set(true);
+        }
         self.k_aids.borrow_mut()[k] = Some(aid);
         Ret::Ok
     }
